@@ -20,6 +20,11 @@ use trust_runtime::value::{Duration, Value};
 use trust_runtime::watchdog::{FaultPolicy, WatchdogAction, WatchdogPolicy};
 
 const IMG: usize = 8;
+/// length of the MODEL's image areas: the runtime's areas are sized IMG (and the drivers cover IMG bytes), but they
+/// are zero-extended vectors -- a 2/4/8-byte address may start inside and end beyond them (reads see zeros there,
+/// writes grow the area) -- so the model looks at MIMG bytes
+const MIMG: usize = 16;
+static MODEL_LEN: std::sync::atomic::AtomicUsize = std::sync::atomic::AtomicUsize::new(IMG);
 /// microseconds per model tick of the script being run (set by `setup`)
 static UNIT_US: std::sync::atomic::AtomicI64 = std::sync::atomic::AtomicI64::new(1000);
 const TYPES: [(&str, &[&str]); 5] = [
@@ -155,8 +160,8 @@ fn gen_script(rng: &mut StdRng, always_restart: bool, fbmode: bool) -> J {
         tasks.push(json!({"name": format!("T{i}"), "interval": interval, "single": single, "prio": rng.gen_range(0..3)}));
     }
     let mut used: std::collections::HashMap<&str, Vec<bool>> = std::collections::HashMap::new();
-    used.insert("Q", vec![false; IMG * 8]);
-    used.insert("M", vec![false; IMG * 8]);
+    used.insert("Q", vec![false; MIMG * 8]);
+    used.insert("M", vec![false; MIMG * 8]);
     let mut programs = Vec::new();
     let mut bindings = Vec::new();
     let mut vars0 = Map::new();
@@ -167,13 +172,14 @@ fn gen_script(rng: &mut StdRng, always_restart: bool, fbmode: bool) -> J {
             let (sz, tys) = TYPES[rng.gen_range(0..TYPES.len())];
             let ty = tys[rng.gen_range(0..tys.len())];
             let n = nbytes(sz);
-            let (ib, ibit) = (rng.gen_range(0..=IMG - n), rng.gen_range(0..8usize));
+            // now and then an address that starts inside the area and ends beyond it
+            let (ib, ibit) = (if n >= 2 && rng.gen_bool(0.15) { rng.gen_range(IMG - n + 1..IMG) } else { rng.gen_range(0..=IMG - n) }, rng.gen_range(0..8usize));
             let oarea = if rng.gen_bool(0.8) { "Q" } else { "M" };
             // output / memory bindings never overlap each other (which of two conflicting
             // variables wins is not specified); inputs overlap freely
             let mut place = None;
             for _ in 0..30 {
-                let (ob, obit) = (rng.gen_range(0..=IMG - n), rng.gen_range(0..8usize));
+                let (ob, obit) = (if n >= 2 && rng.gen_bool(0.15) { rng.gen_range(IMG - n + 1..IMG) } else { rng.gen_range(0..=IMG - n) }, rng.gen_range(0..8usize));
                 let sp = span(sz, ob, obit);
                 if sp.iter().all(|b| !used[oarea][*b]) {
                     for b in sp {
@@ -287,7 +293,7 @@ fn gen_script(rng: &mut StdRng, always_restart: bool, fbmode: bool) -> J {
     // intervals and due times do not sit on whole milliseconds (the model counts ticks either way)
     let unit_us = [1000i64, 1000, 1000, 250, 100, 37][rng.gen_range(0..6)];
     let cfg = json!({"tasks": tasks, "programs": programs, "fbs": fbs, "bindings": bindings, "drivers": drivers,
-                     "policy": policy, "wd": wd, "safe": safe, "singles": singles, "imgLen": IMG, "unitUs": unit_us,
+                     "policy": policy, "wd": wd, "safe": safe, "singles": singles, "imgLen": MIMG, "rtLen": IMG, "unitUs": unit_us,
                      "counters": counters, "sinit": sinit, "access": access, "vars0": vars0});
     let mut steps = Vec::new();
     let dbg_run = rng.gen_bool(0.5);
@@ -570,7 +576,7 @@ impl IoDriver for Drv {
     }
     fn write_outputs(&mut self, outputs: &[u8]) -> Result<(), RuntimeError> {
         let mut sh = self.sh.lock().unwrap();
-        sh.log.push(json!([self.id, "write", outputs.to_vec()]));
+        sh.log.push(json!([self.id, "write", padded(outputs)]));
         if sh.fail == (self.id, "write".to_string()) {
             return Err(RuntimeError::ControlError("scripted driver write failure".into()));
         }
@@ -624,15 +630,26 @@ pub fn run(args: &[String]) -> i32 {
     0
 }
 
+/// An image area as the model sees it: the runtime's bytes, zero-extended to the model length (a longer
+/// area is reported as it is: the model then has no such image and the event is rejected).
+fn padded(b: &[u8]) -> Vec<u8> {
+    let mut v = b.to_vec();
+    let n = MODEL_LEN.load(std::sync::atomic::Ordering::SeqCst);
+    if v.len() < n {
+        v.resize(n, 0);
+    }
+    v
+}
 fn images(h: &TestHarness) -> J {
     let io = h.runtime().io();
-    json!({"I": io.inputs(), "Q": io.outputs(), "M": io.memory()})
+    json!({"I": padded(io.inputs()), "Q": padded(io.outputs()), "M": padded(io.memory())})
 }
 
 fn setup(cfg: &J, src: &str, sh: &Arc<Mutex<Shared>>, retain_path: &std::path::Path) -> Result<TestHarness, String> {
     let mut h = TestHarness::from_source(src).map_err(|e| e.to_string())?;
     UNIT_US.store(cfg["unitUs"].as_i64().unwrap_or(1000), std::sync::atomic::Ordering::SeqCst);
-    let img = cfg["imgLen"].as_u64().unwrap() as usize;
+    MODEL_LEN.store(cfg["imgLen"].as_u64().unwrap() as usize, std::sync::atomic::Ordering::SeqCst);
+    let img = cfg["rtLen"].as_u64().or(cfg["imgLen"].as_u64()).unwrap() as usize;
     h.runtime_mut().io_mut().resize(img, img, img);
     for (d, dr) in cfg["drivers"].as_array().unwrap().iter().enumerate() {
         let (off, len) = (dr["off"].as_u64().unwrap() as usize, dr["len"].as_u64().unwrap() as usize);
